@@ -68,11 +68,13 @@ fn gen_case(r: &mut Rng, id: usize) -> Case {
     let mut ops = vec![];
     let mut used: Vec<String> = vec![];
     for _ in 0..nins {
-        let nrows = match r.below(8) {
+        // `big`: a few hundred rows in one row-set = many key blocks with the tiny block sizes
+        let big = kty == Ty::I32 && !small && r.chance(1, 6);
+        let nrows = if big { r.range(100, 300) as usize } else { match r.below(8) {
             0 => 1,
             1 | 2 => r.range(15, 40) as usize,
             _ => r.range(2, 10) as usize,
-        };
+        } };
         let mut rows = vec![];
         for _ in 0..nrows {
             let mut row = vec![];
@@ -82,7 +84,7 @@ fn gen_case(r: &mut Rng, id: usize) -> Case {
                     if !small {
                         let mut tries = 0;
                         while used.contains(&canon_value(&v)) && tries < 30 {
-                            v = key_val(r, c.ty, false);
+                            v = if big { DataValue::Int32(r.range(0, 1200) as i32) } else { key_val(r, c.ty, false) };
                             tries += 1;
                         }
                         // compaction cases need distinct keys (merge order of equal keys is the heap's business)
@@ -115,6 +117,23 @@ fn gen_case(r: &mut Rng, id: usize) -> Case {
         }
         if nobg && ops.iter().filter(|o| matches!(o, Op::Ins(_))).count() >= 2 && r.chance(1, 2) {
             ops.push(Op::Compact);
+        }
+        // a key-range DELETE: its scan holds the columns, the row handler and (INT first-column
+        // primary key) the pushed KeyRange
+        if kty != Ty::Bool && r.chance(1, 3) {
+            let a = if big || r.chance(1, 2) { used.last().map(|x| parse_val(x)).unwrap_or_else(|| key_val(r, kty, small)) } else { key_val(r, kty, small) };
+            let a = if kty == Ty::I64 || kty == Ty::I16 { key_val(r, Ty::I32, small) } else { a };
+            let b = key_val(r, if kty == Ty::I64 || kty == Ty::I16 { Ty::I32 } else { kty }, small);
+            if !matches!(a, DataValue::Null) {
+                let (lo, hi) = match r.below(5) {
+                    0 => (Bnd::Incl(a), Bnd::Unb),
+                    1 => (Bnd::Excl(a), Bnd::Unb),
+                    2 => (Bnd::Incl(a.clone()), Bnd::Incl(a)),
+                    3 => (Bnd::Incl(a), Bnd::Incl(b)),
+                    _ => (Bnd::Excl(b), Bnd::Excl(a)),
+                };
+                ops.push(Op::DelRange(key, lo, hi));
+            }
         }
     }
     // queries
@@ -208,8 +227,10 @@ fn gen_case(r: &mut Rng, id: usize) -> Case {
         };
         let lo = bnd(r);
         let hi = bnd(r);
-        scans.push(ScanReq { cols: sc.clone(), range: None, sorted: false });
-        scans.push(ScanReq { cols: sc, range: Some((lo, hi)), sorted: false });
+        // half of the pairs carry the row-handler column after the columns, like a DELETE's scan
+        let handler = if r.chance(1, 2) { 1 } else { 0 };
+        scans.push(ScanReq { cols: sc.clone(), range: None, sorted: false, handler });
+        scans.push(ScanReq { cols: sc, range: Some((lo, hi)), sorted: false, handler });
     }
     Case { id, nobg, block, cols, pk, pkdecl, ops, ops2: vec![], queries, scans }
 }
